@@ -6,6 +6,10 @@ props = [json.loads(l) for l in open(os.path.join(V, 'properties.jsonl'))]
 
 # id -> (level, engine, technique, level text, level note, design_ref)
 CHECKS = {
+ 'C17': ('exploration', 'E2-seq', 'exhaustive observation battery over all small trees through the real read-only file system operation interface (no kernel), tree model derived from the bundle entries',
+         'All subsets of <=4 (quick 3) of 6 nested paths x rotated sizes {0,1,L+1,3L} x {streamed prefetch 0/1, pre-downloaded}: every lookup (each directory x each child and absent names), every getattr, opendir, ReadDir from every offset and with the kernel resume protocol at every buffer size, ReadFile at every offset x 4 lengths.',
+         'Driven through fuseutil.FileSystem via a verif-tagged accessor, not through a kernel mount; L=64.',
+         'DESIGN.md §3 C17'),
  'C13': ('fault_enumeration', 'E1-sched', 'deviation-bounded stateless DFS over crash points, transient-fault placements and uploader clock ticks on every store call of the real purge index build / resume / delete-unused, in a synctest bubble, end-to-end download oracle',
          'Every store call of the index build is a fault point (reads: transient; writes: transient before / after / after-reading-the-body, crash before / after) and a 5-minute tick may fire the chunk uploader at any step; a crashed build is resumed; 4 kinds of upload between index and delete; every store call of delete-unused is a transient-fault point; all placements with <=1 (thorough 2) deviations are executed and, when the commands report success, every bundle is downloaded and compared.',
          'Two fixed histories (with and without content re-uploaded after its bundle was deleted), chunk size 2, list/scan parallelism 1 (canonical intra-process order); local pebble KV is real.',
